@@ -242,6 +242,14 @@ inline std::uint64_t& vf_mpi_world_misuse()
     return n;
 }
 
+inline std::uint64_t vf_mpi_take_misuse()
+{
+    std::lock_guard<std::mutex> g(vf_mpi_comm_world()->m);
+    std::uint64_t n = vf_mpi_world_misuse();
+    vf_mpi_world_misuse() = 0;
+    return n;
+}
+
 // run fn(rank, comm) on P rank threads; returns after all have finished
 inline void vf_mpi_run(VfWorld& w, int P, std::uint64_t seed, std::function<void(int, MPI_Comm)> const& fn)
 {
